@@ -1556,6 +1556,127 @@ pub fn check_c17(ctx: &mut Ctx, cfg: &Cfg, how: How) {
     });
 }
 
+/// The three clauses of C17 for a writer that is only reachable as a closure over a buffer: the public `write_into`
+/// of an SDES chunk or item builder, or an FCI builder written on its own (`FciBuilder: RtcpPacketWriter`). These are
+/// "writers" and their configurations "accepted configurations" like any packet builder's.
+fn c17_sub_writer(ctx: &mut Ctx, cfg: &Cfg, how: How, which: &str, kind: &str, wr: &dyn Fn(&mut [u8]) -> Result<usize, RtcpWriteError>) {
+    let n = match call(|| wr(&mut [])) {
+        Ok(Ok(0)) => Some(0),
+        Ok(Err(RtcpWriteError::OutputTooSmall(n))) => Some(n),
+        Ok(Err(_)) => None,
+        // an unwinding or over-claiming sub-builder on an empty buffer is C06's finding
+        _ => return,
+    };
+    if n.map(|n| n > 8192).unwrap_or(false) {
+        return;
+    }
+    let lens: Vec<usize> = match n {
+        Some(n) => {
+            let mut v = vec![n, n + 1, n + 7, n + 64];
+            if n > 0 {
+                v.push(n - 1);
+                v.push(n / 2);
+            }
+            v
+        }
+        None => vec![0, 13, 256],
+    };
+    for l in lens {
+        let mut bufs: Vec<Vec<u8>> = vec![];
+        let mut outs: Vec<Result<Result<usize, RtcpWriteError>, crate::drive::Panicked>> = vec![];
+        for k in 0..3 {
+            let mut b = vec![0u8; l];
+            prefill(k, &mut b);
+            let o = call(|| wr(&mut b));
+            bufs.push(b);
+            outs.push(o);
+        }
+        let case = || cfg_case("c17", cfg, how).set("sub_builder", which).set("buffer_len", l);
+        if outs.iter().any(|o| o.is_err()) {
+            ctx.class_dyn(format!("c17:other-property:sub-builder-write-panics(C06):{kind}"));
+            return;
+        }
+        let rs: Vec<&Result<usize, RtcpWriteError>> = outs.iter().map(|o| o.as_ref().ok().unwrap()).collect();
+        ctx.class_dyn(format!("c17:{kind}:{}:{}", if rs[0].is_ok() { "ok" } else if n.is_some() { "too-small" } else { "invalid" }, if n.map(|n| l > n).unwrap_or(false) { "slack" } else { "exact-or-less" }));
+        if rs[0] != rs[1] || rs[0] != rs[2] {
+            ctx.violate("result-depends-on-prefill", kind, "sub-builder-result", case, "same result for every prefill", format!("{rs:?}"));
+            return;
+        }
+        match rs[0] {
+            Ok(m) => {
+                let m = (*m).min(l);
+                if bufs[0][..m] != bufs[1][..m] || bufs[0][..m] != bufs[2][..m] {
+                    let d = (0..m).find(|&i| bufs[0][i] != bufs[1][i] || bufs[0][i] != bufs[2][i]).unwrap_or(0);
+                    ctx.violate(
+                        "claimed-bytes-defined",
+                        kind,
+                        "sub-builder",
+                        case,
+                        format!("the {m} bytes reported as written do not depend on the previous buffer contents"),
+                        format!("byte {d} of {m} keeps the prefill: {} / {}", hex(&bufs[0][..m.min(64)]), hex(&bufs[1][..m.min(64)])),
+                    );
+                    return;
+                }
+                for k in 0..3 {
+                    let mut exp = vec![0u8; l];
+                    prefill(k, &mut exp);
+                    if bufs[k][m..] != exp[m..] {
+                        let d = (m..l).find(|&i| bufs[k][i] != exp[i]).unwrap_or(m);
+                        ctx.violate("bytes-beyond-n-untouched", kind, "sub-builder-beyond-n", case, format!("bytes at and after {m} keep their previous contents"), format!("byte {d} changed from {:#04x} to {:#04x}", exp[d], bufs[k][d]));
+                        return;
+                    }
+                }
+            }
+            Err(e) => {
+                for k in 0..3 {
+                    let mut exp = vec![0u8; l];
+                    prefill(k, &mut exp);
+                    if bufs[k] != exp {
+                        let d = (0..l).find(|&i| bufs[k][i] != exp[i]).unwrap_or(0);
+                        ctx.violate(
+                            "failed-write-leaves-buffer",
+                            kind,
+                            &format!("sub-builder:{}", variant_name(&format!("{e:?}"))),
+                            case,
+                            format!("a write failing with {e:?} leaves the whole buffer unchanged"),
+                            format!("byte {d} changed from {:#04x} to {:#04x}", exp[d], bufs[k][d]),
+                        );
+                        return;
+                    }
+                }
+            }
+        }
+    }
+}
+
+/// C17 for the sub-builders of a configuration (native differential oracle only).
+pub fn check_c17_subs(ctx: &mut Ctx, cfg: &Cfg, how: How) {
+    if UNINIT.load(Ordering::Relaxed) {
+        return;
+    }
+    let _case = crate::watchdog::case_cfg("c17", cfg, how);
+    if let Cfg::Fb { fci, .. } = cfg {
+        if enc::size_of(cfg) <= 8192 {
+            if let Ok(fb) = call(|| crate::drive::mk_fci(fci)) {
+                let alone = FciAlone(fb.as_dyn());
+                let w = crate::drive::DynW(&alone);
+                c17_sub_writer(ctx, cfg, how, "fci-builder-alone", &format!("{}(fci-builder-alone)", cfg.kind_name()), &|buf| rtcp_types::prelude::RtcpPacketWriterExt::write_into(&w, buf));
+            }
+        }
+    }
+    if let Cfg::Sdes { chunks, .. } = cfg {
+        for (ci, c) in chunks.iter().enumerate().take(3) {
+            c17_sub_writer(ctx, cfg, how, &format!("chunk{ci}"), "sdes-chunk", &|buf| crate::drive::mk_chunk(c, how.owned).write_into(buf));
+            for (ii, i) in c.items.iter().enumerate().take(3) {
+                c17_sub_writer(ctx, cfg, how, &format!("chunk{ci}.item{ii}"), "sdes-item", &|buf| {
+                    let b = if how.owned { crate::drive::mk_item(i).into_owned() } else { crate::drive::mk_item(i) };
+                    b.write_into(buf)
+                });
+            }
+        }
+    }
+}
+
 pub fn run_c17(ctx: &mut Ctx, shard: usize, nshards: usize) {
     // configurations above 65536 words, as long as size calculation accepts them (open finding D13, C16's): they are
     // "accepted configurations", so the bytes reported as written must not depend on what the buffer held before
@@ -1569,7 +1690,10 @@ pub fn run_c17(ctx: &mut Ctx, shard: usize, nshards: usize) {
             }
         }
     }
-    workload(ctx, shard, nshards, 0xc17, false, 20_000, 600_000, &mut |ctx, c, h| check_c17(ctx, c, h));
+    workload(ctx, shard, nshards, 0xc17, false, 20_000, 600_000, &mut |ctx, c, h| {
+        check_c17(ctx, c, h);
+        check_c17_subs(ctx, c, h);
+    });
 }
 pub fn floor_c17(ctx: &Ctx) -> Vec<(String, bool)> {
     let all = ctx.all_classes();
